@@ -317,6 +317,25 @@ def _case(repo, it, S, spec):
                         out.append(("explicit parent overrides the embedded one", f"{desc}: importing the dictionary with its exported parent onto "
                                     f"another parent gives location {la} / {_diff(db, da)}; the explicitly passed parent must win "
                                     f"(location {lb})", f_from.qual))
+            # the name recorded for the parent is the parent's own id - also when the collection's sequence_name metadata says
+            # something else (an alias): the re-built members sit on a parent with the same id as before
+            if parent is not None and cw is None:
+                n += 1
+                ac_alias = mk_collection(it, genes, fcs, sequence_name="alias_of_chr1", name="the collection", id="ac1",
+                                         parent_or_seq_chunk_parent=parent)
+                ka_, da_ = run(it, f_to, [], {"export_parent": True}, ac_alias)
+                if ka_ == "ok":
+                    kb_, back_ = run(it, f_from, [da_], {}, None)
+                    pid = lambda o_: (lambda l_: l_.fields["parent"].fields.get("id") if isinstance(l_, Obj) and isinstance(l_.fields.get("parent"), Obj) else None)(  # noqa: E731
+                        run(it, repo.fn("gene.interval:AbstractInterval.chromosome_location"), [], {}, o_)[1])
+                    if kb_ != "ok":
+                        out.append(("export_parent with an alias sequence_name", f"{desc}: from_dict raises {back_}", f_from.qual))
+                    elif pid(back_) != pid(ac_alias) or back_.fields.get("sequence_name") != "alias_of_chr1":
+                        out.append(("export_parent with an alias sequence_name", f"{desc}: a collection with sequence_name 'alias_of_chr1' on parent "
+                                    f"{pid(ac_alias)!r} comes back on parent {pid(back_)!r} with sequence_name {back_.fields.get('sequence_name')!r}",
+                                    "gene.interval:AbstractInterval._parent_to_dict"))
+                else:
+                    out.append(("export_parent with an alias sequence_name", f"{desc}: to_dict(export_parent=True) raises {da_}", f_to.qual))
             # pickling
             n += 1
             gs = repo.fn("gene.collections:AnnotationCollection.__getstate__")
@@ -591,8 +610,32 @@ def r2b_model_fields_forwarded(ctx):
                     f"{mname}.{conv} never reads self.{fld}: the value is lost when the model is turned into an object", conv_fn)
 
 
+def rq_chunk_dictionaries(ctx):
+    """the dictionary form in chunk coordinates (`to_dict(chromosome_relative_coordinates=False)`) of intervals built on chunks
+    that contain, clip and miss them: the listed blocks are the chunk-relative blocks, the chromosome-coordinate dictionary is
+    that of the chromosome-built twin.  Decided with the chunk-twin evaluation of C07 (same interpreter, same oracle); only the
+    dictionary questions are reported here."""
+    from . import c07
+    from ..par import pmap
+    specs = []
+    for kind in ("tx", "feat", "ctx0"):
+        for lay in c07.LAYOUTS[:3]:
+            for sn in ("PLUS", "MINUS"):
+                lo, hi = lay[0][0], lay[-1][1]
+                for cs, ce in ((lo - 2, hi + 2), (lo + 2, hi + 2), (lo - 2, hi - 2), (lo + 1, hi - 1), (lay[0][1] - 1, hi)):
+                    if 0 <= cs < ce:
+                        specs.append((kind, lay, sn, cs, ce))
+    ctx.r.floor("C08.RQ", "chunk-coordinate dictionary cases", len(specs), 60)
+    results = pmap(c07._runner(ctx.repo, c07._tx_case), specs)
+    results = [(n_, [(k_, m_, q_) for k_, m_, q_ in outs if k_.startswith("to_dict") or k_ in ("construct", "chunk construct", "uninterpretable")])
+               for n_, outs in results]
+    _report(ctx, "C08.RQ", results, [("gene.transcript:TranscriptInterval.to_dict", "chunk-coordinate blocks = chunk-relative location"),
+                                     ("gene.feature:FeatureInterval.to_dict", "chunk-coordinate blocks = chunk-relative location")])
+
+
 RULES = [
     ("C08.RK", rk_round_trips),
+    ("C08.RQ", rq_chunk_dictionaries),
     ("C08.RG", rg_identifiers),
     ("C08.RD", rg_derived_identifiers),
     ("C08.R2", r2_model_keys),
